@@ -10,6 +10,21 @@
 #define R2D (180.0/NPY_PI)
 #define D2R (NPY_PI/180.0)
 
+// Matcher::match searches the triangles around a cap that is larger than the
+// search radius by this margin (degrees).  cos(radius) cannot represent radii
+// below about 1e-6 degree, and the triangle search has its own tolerances, so
+// without the margin pairs across a triangle edge were lost for small radii.
+// Only the candidate list grows; pairs are still kept iff distance <= radius.
+#define MATCH_COVER_PAD_DEGREES 1.0e-4
+
+static double match_cover_cosine(double radius) {
+    double padded = radius + MATCH_COVER_PAD_DEGREES;
+    if (padded >= 180.0) {
+        padded = 180.0;
+    }
+    return cos( padded*D2R );
+}
+
 #if PY_MAJOR_VERSION >= 3
 static int *init_numpy(void) {
     import_array();
@@ -479,7 +494,7 @@ PyObject* Matcher::match(PyObject* ra_array, // all in degrees
     double rad=0, d=0;
     if (nrad == 1) {
         rad = *(double *) PyArray_GETPTR1((PyArrayObject *) radius_array, 0);
-        d = cos( rad*D2R );
+        d = match_cover_cosine(rad);
     }
 
     npy_intp ninput = PyArray_SIZE((PyArrayObject *) ra_array);
@@ -491,7 +506,7 @@ PyObject* Matcher::match(PyObject* ra_array, // all in degrees
 
         if (nrad > 1) {
             rad = *(double *) PyArray_GETPTR1((PyArrayObject *) radius_array, i_input);
-            d = cos( rad*D2R );
+            d = match_cover_cosine(rad);
         }
 
         // Find the triangles around this point
